@@ -871,6 +871,17 @@ class Monitor(object):
                 if id(m) not in before_m:
                     rows.append(post.mats[id(m)])
         self.ctx.ev("read-judged")
+        want_ns = R.get("ns")
+        if want_ns is not None:
+            self.ctx.ev("read-into-given-namespace-judged")
+            for t, ns in trees:
+                if ns is not want_ns:
+                    return self.viol(E, "read-not-into-the-namespace-passed-in",
+                                     "trees arrived in another namespace than the one given as taxon_namespace= (%d members)" % len(want_ns))
+            for m, ns, rr in rows:
+                if ns is not want_ns:
+                    return self.viol(E, "read-not-into-the-namespace-passed-in",
+                                     "the matrix arrived in another namespace than the one given as taxon_namespace=")
         want_trees = R.get("trees") or []
         if True:
             if len(trees) != len(want_trees):
